@@ -624,6 +624,13 @@ func (m *Machine) draw0(t *rapid.T, g *GenOpts) Action {
 		a.Module = "dogfood"
 		a.Ident = uniform(t, len(m.idents()), "who")
 		a.N = 1 + uniform(t, 4, "newN")
+	case "setValsetParams":
+		// a parameter update that changes the size of the validator set or the eligibility
+		// threshold (possible for anybody on testnet chain ids; rejected on mainnet ids)
+		a.Kind = "updateParams"
+		a.Module = "dogfood"
+		a.Ident = uniform(t, len(m.idents()), "who")
+		a.N = []int{-1, -1, -2, -3, -4}[uniform(t, 5, "which")]
 	case "updateParams":
 		a.Module = paramModules[uniform(t, len(paramModules), "module")]
 		attacker := uniform(t, len(m.idents()), "attacker")
